@@ -82,3 +82,16 @@ Theorem C06_emphasis_in_sentence_hypotheses :
   edge_post ($"x") = false /\ edge_pre ($"x") = false.
 Proof. exact sentence_instance. Qed.
 Print Assumptions C06_emphasis_in_sentence_hypotheses.
+
+(* The model's flanking predicates and closed_by are the functions of core_tokens.py: Gen/GenCore.v is written
+   from the source text on every run (harness/gen/gen_core.py, Python ast, fails closed), and the hand-written
+   definitions the theorems above speak about are equal to it on every argument (Proofs/CoreRegen.v). *)
+From Mistletoe Require Import Gen.GenCore Proofs.CoreRegen.
+Theorem C06_flanking_is_the_source :
+  (forall a b s, g_is_opener a b s = is_opener a b s /\ g_is_closer a b s = is_closer a b s /\
+                 g_is_left_delimiter a b s = is_left_delimiter a b s /\ g_is_right_delimiter a b s = is_right_delimiter a b s) /\
+  (forall i s p, g_preceded_by i s p = preceded_by i s p /\ g_succeeded_by i s p = succeeded_by i s p) /\
+  (forall s i c, g_follows s i c = follows s i c) /\ (forall c, g_is_control_char c = is_control_char c) /\
+  (forall o c, g_closed_by o c = closed_by o c).
+Proof. exact core_functions_regenerated. Qed.
+Print Assumptions C06_flanking_is_the_source.
